@@ -129,6 +129,13 @@ CLAIMS = {
          "AST the lowering MODEL produces, for all trees; conOk* is still evaluated per case on the REAL AST as a cross-check, and the model-free "
          "lower-classification oracle does the same on every real lowered AST of the tie. "
          "Trusted: Lean kernel (axioms printed in evidence), harness AST→scope-tree dump and HIR walk, the generator's coverage of scope shapes. "
+         "(variants / structs declared in the same file, whatever is in scope) is the language's documented rule, not decided by the property; "
+         "since round 11 the check applies that rule itself (harness/src/patrule.rs, on the parser's node and the file's declarations) instead of "
+         "taking lower.rs's word: the binders of the scope tree follow the rule, a pattern lowered against it is reported, and the catalogue "
+         "harness/src/patpos.rs (constructor patterns under same-spelled parameters, closure parameters and shorthand fields, uses of the local in "
+         "the arm bodies) must resolve to the innermost binder by the rule and be accepted.",
+    design_ref="§5 C05",
+    note="Trusted: Lean kernel (axioms printed in evidence), harness AST→scope-tree dump and HIR walk, the generator's coverage of scope shapes. "
          "The typer's own scoping (LocalTypeEnv) is exercised only through the acceptance oracle.",
     technique="Lean 4 proof (structural induction over the nested AST) + differential correspondence with the Rust resolver"),
  "C07": dict(
@@ -244,7 +251,13 @@ CLAIMS = {
          "hypotheses for the compiler's x{n}). Tied to the Rust on every run (L1): every match / destructuring let of the real typed AST of the "
          "corpus, of exhaustively enumerated / sampled small matrices and of generated programs with nested patterns is compiled by the REAL "
          "compile_match::compile_file (marker bodies) and the model's Core must equal the real Core up to bound names. Independent oracle: the "
-         "real Core runs under Sem on every value of the scrutinee type up to depth 3 and must behave like firstMatch on the source patterns.",
+         "real Core runs under Sem on every value of the scrutinee type up to depth 3 and must behave like firstMatch on the source patterns. "
+         "The source patterns are the patterns AS WRITTEN; which bare identifier of a written pattern is a constructor is decided by the language's "
+         "rule (variant of an enum / name of a struct declared in the same file, whatever local binders are in scope), applied by "
+         "harness/src/patrule.rs to the parser's node, not by ast/src/lower.rs nor by the typed pattern; a pattern lowered against the rule is "
+         "reported on its own. A deterministic catalogue (harness/src/patpos.rs: constructor spelling x binder kind putting that spelling in scope x "
+         "type of the local x pattern position x arm body uses the local, 405 programs) must be accepted and print at every stage the output "
+         "computed on the generator's own pattern terms (validated, not proved; lower.rs is not modelled here).",
     design_ref="§5 C06, 'C06 — as built'",
     note="Proved about the model; that the model equals compile_match.rs is validated differentially (L1), not proved. Hypotheses of the main "
          "theorem: gensym injective and fresh (proved for x{n} vs names not starting with x), values of the scrutinee's shape (`conf`, evaluated "
